@@ -66,22 +66,58 @@ def boolGrid (x : Option (PV α)) : List (List Bool) :=
       | _ => []
   | _ => []
 
-/-- `_check_interp(idata, z)` + the choice and construction of `_Interp1d` / `_Interp2d`;
-    also returns the flat list of table values (for the min / max checks of the callers).
+/-- `np.array(z).shape` as far as `_check_interp` reads it: `none` = 0-d (not a list), `some (n, none)` = 1-d
+    (`[]` or a flat list), `some (n, some m)` = `n` rows of equal length `m`; ragged or mixed nesting is
+    numpy's "inhomogeneous shape" `ValueError`. -/
+def tableShape (zz : PV α) : Except Err (Option (Nat × Option Nat)) :=
+  match zz with
+  | .list [] => pure (some (0, none))
+  | .list (r :: rs) =>
+    if (r :: rs).all PV.isList then
+      let len : PV α → Nat := fun x => match x with | .list l => l.length | _ => 0
+      if rs.all (fun x => len x == len r) then pure (some (rs.length + 1, some (len r)))
+      else throw (.value "inhomogeneous shape")
+    else if (r :: rs).any PV.isList then throw (.value "inhomogeneous shape")
+    else pure (some (rs.length + 1, none))
+  | _ => pure none
+
+/-- the shape test of `_check_interp` (`vsh[0] != zsh[0] or ish[0] != zsh[1]`, with the `IndexError`s of
+    0-d / 1-d data), then the numeric rows of the table -/
+def tableRows (vi zz : PV α) (nio : Nat) (z : String) : Except Err (List (List α)) := do
+  let zsh ← tableShape zz
+  let nvi ← match vi with | .list l => pure l.length | _ => throw (.other "IndexError")
+  let (n, m?) ← match zsh with | some sh => pure sh | none => throw (.other "IndexError")
+  if nvi != n then throw (.value "dimensions of interpolation data do not match")
+  let m ← match m? with | some m => pure m | none => throw (.other "IndexError")
+  if nio != m then throw (.value "dimensions of interpolation data do not match")
+  match zz with
+  | .list rs => rs.mapM (numList z)
+  | _ => throw (.other "IndexError")
+
+/-- all grid points on one line: Qhull cannot triangulate (`QhullError`, a `RuntimeError`) -/
+def allSame : List α → Bool
+  | [] => true
+  | x :: xs => xs.all fun y => eqB (nabs y) (nabs x)
+
+/-- `_check_interp(idata, z)`, the range check `chk` the caller applies to the table values, then the
+    choice and construction of `_Interp1d` / `_Interp2d`; also returns the flat list of table values.
     The key `"__diag"` (never seen by the Python) carries scipy's observed diagonal choice. -/
-def mkTable (d : List (String × PV α)) (z : String) : Except Err (Param α × List α) := do
+def mkTable (d : List (String × PV α)) (z : String)
+    (chk : List α → Except Err Unit := fun _ => pure ()) : Except Err (Param α × List α) := do
   match d.lookup "vi", d.lookup "io", d.lookup z with
   | some vi, some io, some zz =>
-    let ios ← numList "io" io
+    let ios ← match io with
+      | .list l => l.mapM (numArg "io")
+      | _ => throw (.value "diff requires input that is at least one dimensional")
     if !(strictlyIncreasing ios) then throw (.value "io values must be monotonic increasing")
-    let vis ← numList "vi" vi
-    let rows ← match zz with
-      | .list rs => rs.mapM (numList z)
-      | _ => throw (.other "IndexError")
-    if vis.length != rows.length || rows.any (fun r => r.length != ios.length) then
-      throw (.value "dimensions of interpolation data do not match")
-    if vis.length == 1 then pure (.tab1 ios (rows.headD []), rows.flatten)
-    else pure (.tab2 ios vis rows (boolGrid (d.lookup "__diag")), rows.flatten)
+    let rows ← tableRows vi zz ios.length z
+    chk rows.flatten
+    if rows.length == 1 then pure (.tab1 ios (rows.headD []), rows.flatten)
+    else
+      let vis ← numList "vi" vi
+      if ios.isEmpty then throw (.value "min() arg is an empty sequence")
+      if allSame ios || allSame vis then throw (.runtime "QhullError")
+      pure (.tab2 ios vis rows (boolGrid (d.lookup "__diag")), rows.flatten)
   | _, _, _ => throw (.value ("interpolation data must contain vi, io and " ++ z))
 
 def listMin : List α → Option α
@@ -91,14 +127,27 @@ def listMax : List α → Option α
   | [] => none
   | x :: xs => some (xs.foldl nmax x)
 
+/-- `np.min(ig["ig"]) < 0.0` → ValueError (`np.min` of an empty array is a ValueError itself) -/
+def chkIg (vals : List α) : Except Err Unit :=
+  match listMin vals with
+  | some m => if m < 0 then throw (.value "ig values must be >= 0.0") else pure ()
+  | none => throw (.value "zero-size array to reduction operation minimum which has no identity")
+
+/-- `np.min(eff["eff"]) <= 0.0`, `np.max(eff["eff"]) > 1.0` → ValueError -/
+def chkEff (vals : List α) : Except Err Unit :=
+  match listMin vals, listMax vals with
+  | some mn, some mx =>
+    if !(0 < mn) then throw (.value "Efficiency values must be > 0.0")
+    else if 1 < mx then throw (.value "Efficiency values must be <= 1.0")
+    else pure ()
+  | _, _ => throw (.value "zero-size array to reduction operation minimum which has no identity")
+
 /-- ground-current argument of LinReg / PSwitch / PMux / Rectifier: table (entries ≥ 0) or constant -/
 def mkIg (ig : PV α) : Except Err (Param α) :=
   match ig with
   | .dict d => do
-    let (p, vals) ← mkTable d "ig"
-    match listMin vals with
-    | some m => if m < 0 then throw (.value "ig values must be >= 0.0") else pure p
-    | none => pure p
+    let (p, _) ← mkTable d "ig" chkIg
+    pure p
   | x => do pure (.const (← absArg "ig" x))
 
 def stripDiag (x : PV α) : PV α :=
@@ -171,13 +220,8 @@ def mkComp (kind : Kind) (name : String) (a : Args α) : Except Err (Comp α) :=
     let eff ← match a.lookup "eff" with | some x => pure x | none => throw (.type "missing eff")
     let par ← match eff with
       | .dict d => do
-        let (p, vals) ← mkTable d "eff"
-        match listMin vals, listMax vals with
-        | some mn, some mx =>
-          if !(0 < mn) then throw (.value "Efficiency values must be > 0.0")
-          if 1 < mx then throw (.value "Efficiency values must be <= 1.0")
-          pure p
-        | _, _ => pure p
+        let (p, _) ← mkTable d "eff" chkEff
+        pure p
       | x => do
         let e ← numArg "eff" x
         if !(0 < e) then throw (.value "Efficiency must be > 0.0")
@@ -205,6 +249,10 @@ def mkComp (kind : Kind) (name : String) (a : Args α) : Except Err (Comp α) :=
                              (match d.lookup "iq" with | some z => [("ig", z)] | none => []))
          | x => x)
       else arg a "ig" zero
+    -- `igc["ig"] = igc.pop("iq")`
+    match iqA with
+      | .dict d => if iqSet && (d.lookup "iq").isNone then throw (.key "iq")
+      | _ => pure ()
     let par ← mkIg igc
     let iis ← absArg "iis" (arg a "iis" zero)
     let rt ← absArg "rt" (arg a "rt" zero)
@@ -241,11 +289,11 @@ def mkComp (kind : Kind) (name : String) (a : Args α) : Except Err (Comp α) :=
   | .rectifier =>
     let vd := arg a "vdrop" zero
     let isDiode := match vd with | .dict _ => true | x => (x.num?.map fun v => !isZ v).getD true
-    let rt ← absArg "rt" (arg a "rt" zero)
     if isDiode then
       let (par, stored) ← match vd with
         | .dict d => do let (p, _) ← mkTable d "vdrop"; pure (p, stripDiag vd)
         | x => do let v ← absArg "vdrop" x; pure (Param.const v, PV.float v)
+      let rt ← absArg "rt" (arg a "rt" zero)     -- "common params" come last in the Python
       let lim ← checkLimits limArg
       pure { name, kind, par, rt, diode := true, limits := lim,
              params := [("name", .str name), ("type", .str "diode"), ("vdrop", stored),
@@ -262,6 +310,7 @@ def mkComp (kind : Kind) (name : String) (a : Args α) : Except Err (Comp α) :=
       let ig := arg a "ig" zero
       let par ← mkIg ig
       let iq ← absArg "iq" (arg a "iq" zero)
+      let rt ← absArg "rt" (arg a "rt" zero)
       let lim ← checkLimits limArg
       pure { name, kind, rs, rsList, par, iq, rt, diode := false, limits := lim,
              params := [("name", .str name), ("type", .str "mosfet"), ("rs", rsA),
